@@ -1,9 +1,11 @@
 """Property -> rules wiring.  Each function returns kwargs for Ctx.finish()."""
-from . import control, history, descent, warm, degenerate, feasible, plumb, matrix, storage
+from . import control, history, descent, warm, degenerate, feasible, plumb, matrix, storage, formulas, penalgebra
 
 TB = ["CPython ast", "role seeds: positional parameters of BaseSolver._solve and the "
       "fixed slot-method names of the datafit/penalty interface"]
 EX01 = control.C01_SCOPE_EXEMPT
+TBA = TB + ["identity list of sa/algebra.py (exp/sqrt/abs/sign/indicator rules, X*mask = X)",
+            "attribute-extent table ATTR_DIMS, tabled Hessian suprema and documented bounds"]
 
 
 def c01(A, ctx, tier):
@@ -14,6 +16,7 @@ def c01(A, ctx, tier):
     control.r_retstop(A, ctx, dict(scope, floor=6))
     control.r_anderson(A, ctx, scope)
     control.r_lbfgs(A, ctx, scope)
+    formulas.r_istep(A, ctx, dict(floor=5), rule="R-CERT-SCALE", require_scale=True)
     for k, v in EX01.items():
         ctx.note(f"out of scope {k}: {v}")
     ctx.assume("a score <= tol implies eps-stationarity numerically (not decided)")
@@ -159,13 +162,101 @@ def c16(A, ctx, tier):
         return out
     degenerate.r_div(A, ctx, dict(floor=3, py_level_strict=True), where=where, rule="R-DIV-ALPHAMAX")
     control.r_cert(A, ctx, dict(exempt=EX01, floor=6), rule="R-CERT-INTERCEPT", clauses=("intercept",))
+    penalgebra.r_alphamax(A, ctx, dict(floor=4))
     ctx.assume("that a fit slightly below alpha_max is non-zero is numerical and not decided")
     return dict(explanation="critical strength: alpha_max helpers exclude zero weights "
                 "before dividing; a solver that fits an intercept cannot exit at w = 0 "
                 "before the intercept is optimal", trusted_base=TB)
 
 
+def c06(A, ctx, tier):
+    formulas.r_sib(A, ctx, dict(floor=40))
+    formulas.r_deriv(A, ctx, dict(floor=18))
+    formulas.r_istep(A, ctx, dict(floor=5))
+    ctx.assume("value() is compared with its own derivatives and siblings, not with the "
+               "docstring formula (parsing maths out of prose would be a text match)")
+    ctx.assume("Cox risk-set recursions (_B_dot_vec, ...) are opaque operators: only the "
+               "outer composition gradient == gradient_sparse == X.T @ raw_grad is decided")
+    return dict(explanation="every datafit accessor is lifted to a rational-function normal "
+                "form over (X, y, Xw, hyper-parameters): sibling accessors (dense, CSC, scalar, "
+                "full, X_j.raw_grad) are equal terms, raw_grad / raw_hessian / coordinate "
+                "gradients are the syntactic derivatives of value(), lazy attributes agree "
+                "between initialize and initialize_sparse", trusted_base=TBA)
+
+
+def c07(A, ctx, tier):
+    penalgebra.r_proxfoc(A, ctx, dict(floor=30))
+    feasible.r_pos(A, ctx, dict(floor=8), rule="R-POS-PROX", parts=("prox",))
+
+    def where(A_):
+        out = [f for f in A_.prog.modules["skglm.utils.prox_funcs"].functions.values()]
+        for c in A_.prog.penalties:
+            for m in ("prox_1d", "prox_1feat", "prox_1group", "prox_vec"):
+                if m in c.methods:
+                    out.append(c.methods[m])
+        return out
+    degenerate.r_div(A, ctx, dict(floor=3), where=where, rule="R-DIV-PROX")
+    ctx.assume("global optimality of the closed forms prox_SCAD, prox_05, prox_2_3, prox_log_sum, "
+               "prox_SLOPE is an analytic result without structural clause: not claimed")
+    return dict(explanation="prox_1d of every convex / MCP-type separable penalty is checked "
+                "against the penalty's own value(): first-order condition on every order region "
+                "(witness-selected branch, symbolic identity), zero output exactly below the kink "
+                "threshold, non-negative output under positive=True, box projection; the positive "
+                "flag reaches every prox helper; divisions by input norms are guarded",
+                trusted_base=TBA)
+
+
+def c08(A, ctx, tier):
+    penalgebra.r_deriv_pen(A, ctx, dict(floor=45))
+    feasible.r_pos(A, ctx, dict(floor=5), rule="R-POS-SCORE", parts=("score",))
+
+    def where(A_):
+        out = []
+        for c in A_.prog.penalties:
+            if "subdiff_distance" in c.methods:
+                out.append(c.methods["subdiff_distance"])
+        for m in A_.prog.modules.values():
+            for f in m.functions.values():
+                if f.name.startswith("dist_fix_point"):
+                    out.append(f)
+        return out
+    degenerate.r_div(A, ctx, dict(floor=8), where=where, rule="R-DIV-SCORE")
+    ctx.assume("that the regular subdifferential is the right notion at non-convex kinks is a "
+               "mathematical fact, not decided; group/block scores are decided only through "
+               "their guards (R-DIV) - see DESIGN.md")
+    return dict(explanation="for every separable penalty and every order region of w_j the "
+                "lifted subdiff_distance equals |grad + d value/d w_j| (smooth regions), "
+                "max(0, |grad| - t) at the kink with t the one-sided limit of the derivative, +inf "
+                "on negative coefficients under positive=True, the normal-cone template for "
+                "indicator penalties", trusted_base=TBA)
+
+
+def c09(A, ctx, tier):
+    formulas.r_lipc(A, ctx, dict(floor=12))
+    formulas.r_sib(A, ctx, dict(floor=12), only=("lipschitz",))
+    ctx.assume("accuracy of the power method in spectral_norm is numerical and not decided; "
+               "spectral norms are opaque atoms keyed by the matrix they are taken of")
+    return dict(explanation="coordinate / group / global Lipschitz constants are lifted and "
+                "compared with sum_i X_ij^2 h_i, ||X_g||^2 h, ||diag(sqrt h) X||^2 where h is the "
+                "lifted (constant) Hessian or its tabled supremum; larger constants are accepted, "
+                "smaller ones are violations; dense and CSC variants are equal terms",
+                trusted_base=TBA)
+
+
+def c14(A, ctx, tier):
+    penalgebra.r_red(A, ctx, dict(floor=35))
+    plumb.r_who(A, ctx, dict(floor=13))
+    ctx.assume("limit reductions (gamma -> inf, delta -> inf), SLOPE vs L1, Efron vs Breslow "
+               "without ties, Gram vs CD, integer weights vs replicated rows are not decided")
+    return dict(explanation="method-by-method equality of lifted terms under the substitution "
+                "that makes the general component coincide with the special one (weights := 1, "
+                "l1_ratio := 1, sample_weights := 1, group accessor at one feature); every "
+                "estimator goes through the same _glm_fit as GeneralizedLinearEstimator",
+                trusted_base=TBA)
+
+
 PROPS = {
+    "C06": c06, "C07": c07, "C08": c08, "C09": c09, "C14": c14,
     "C10": c10, "C13": c13, "C16": c16,
     "C11": c11, "C12": c12, "C18": c18,
     "C01": c01, "C03": c03, "C04": c04, "C05": c05, "C17": c17, "C19": c19,
